@@ -179,6 +179,18 @@ fn process_dir(
     // As WalkDir seems not providing a function to check its stack,
     // using current_dir is a workaround to check leaving directory.
     let mut current_dir: Option<PathBuf> = None;
+    // With -xdev walkdir does not descend into a directory on another file system, so
+    // skip_current_dir() after -prune on such a directory would drop the remaining
+    // entries of its parent instead.
+    #[cfg(unix)]
+    let root_dev = if config.same_file_system {
+        config.follow.root_metadata(dir).ok().map(|m| {
+            use std::os::unix::fs::MetadataExt;
+            m.dev()
+        })
+    } else {
+        None
+    };
     while let Some(result) = it.next() {
         match WalkEntry::from_walkdir(result, config.follow).map(|e| e.with_starting_point(dir)) {
             Err(err) => {
@@ -213,7 +225,15 @@ fn process_dir(
                 }
                 // With -depth the directory's contents have already been visited and
                 // skip_current_dir() would drop the directory's remaining siblings instead.
-                if matcher_io.should_skip_current_dir() && !config.depth_first {
+                #[cfg(unix)]
+                let descended = root_dev.is_none()
+                    || entry.metadata().ok().map(|m| {
+                        use std::os::unix::fs::MetadataExt;
+                        m.dev()
+                    }) == root_dev;
+                #[cfg(not(unix))]
+                let descended = true;
+                if matcher_io.should_skip_current_dir() && !config.depth_first && descended {
                     it.skip_current_dir();
                 }
             }
